@@ -10,9 +10,11 @@ COMMON_NOTE = ('Trusted: Coq 8.16.1 kernel (+ vm_compute, no native_compute), th
                'CachedMethods 0.2.0 breaks slotted classes; the shim restores 0.1 semantics, /repo is not patched), CPython 3.12.1. '
                'Theorems are about the Coq model; the tie to /repo is the regenerated tables and the model/implementation correspondence run on every check. ')
 
+# only properties listed in harness/manifest/READY (checked by hand: ./check passes on the unchanged tree) are claimed
+READY = set(open(os.path.join(VERIF, 'harness', 'manifest', 'READY')).read().split())
 CLAIMED = {}
 for _f in sorted(os.listdir(os.path.join(VERIF, 'harness', 'manifest'))):
-    if _f.endswith('.json'):
+    if _f.endswith('.json') and _f[:-5] in READY:
         CLAIMED[_f[:-5]] = json.load(open(os.path.join(VERIF, 'harness', 'manifest', _f)))
 
 PLANNED = {
@@ -39,7 +41,7 @@ def main():
                 'technique': c['technique'],
             })
         else:
-            na.append({'property_id': pid, 'reason': PLANNED.get(pid, 'no check built yet for this property in this development (design in DESIGN.md section 5); not claimed')})
+            na.append({'property_id': pid, 'reason': PLANNED.get(pid, 'check under construction in this development (design in DESIGN.md section 5): not yet passing reliably on the unchanged tree, therefore not claimed')})
     man = {
         'version': 1,
         'setup_cmd': './check --setup',
